@@ -240,6 +240,8 @@ class LinInterp:
         self.residue_adts = tuple(residue_adts)
         self.atoms = {}
         self.expand = {}
+        self.use_lp = True
+        self._lp_cache = {}
         self.qinfo = {}        # Qk[L] -> (k, L)
         self.facts = {}        # path facts: lin_key(N) -> (lo, hi) for a constant-free linear form N
         self.on_residue = None # client predicate on every residue constructed (canonical form, path facts); False aborts with Mismatch
@@ -275,20 +277,30 @@ class LinInterp:
         """interval of a linear form: atoms taken independently, then tightened with x = Tk[x] + 2^k Qk[x] wherever the form contains both
         a quotient atom Qk[x] and a multiple of x, and with the comparisons decided on this path"""
         lo, hi = self._rng(lin)
-        for a in list(lin):
-            qi = self.qinfo.get(a)
-            if not qi:
-                continue
-            k, L = qi
-            piv = next((x for x in L if x != ""), None)
-            if piv is None or lin.get(piv, 0) % L[piv]:
-                continue
-            m = lin.get(piv, 0) // L[piv]
-            if m == 0 or any(lin.get(x, 0) != m * c for x, c in L.items() if x != ""):
-                continue
+        cur = lin
+        done = set()
+        for _ in range(16):
+            step = None
+            for a in cur:
+                qi = self.qinfo.get(a)
+                if not qi or a in done:
+                    continue
+                k, L = qi
+                piv = next((x for x in L if x != ""), None)
+                if piv is None or cur.get(piv, 0) % L[piv]:
+                    continue
+                m = cur.get(piv, 0) // L[piv]
+                if m == 0 or any(cur.get(x, 0) != m * c for x, c in L.items() if x != ""):
+                    continue
+                step = (a, k, L, m)
+                break
+            if step is None:
+                break
+            a, k, L, m = step
+            done.add(a)
             t = self.atom(f"T{k}[{lin_key(L)}]", 0, min((1 << k) - 1, max(self._rng(L)[1], 0)), expand=lin_add(L, {a: 1 << k}, -1))
-            l2 = lin_add(lin_add(lin, L, -m), {t: m, a: m << k})
-            lo2, hi2 = self._rng(l2)
+            cur = lin_add(lin_add(cur, L, -m), {t: m, a: m << k})
+            lo2, hi2 = self._rng(cur)
             lo, hi = max(lo, lo2), min(hi, hi2)
         if self.facts:
             n = {x: c for x, c in lin.items() if x != ""}
@@ -306,6 +318,81 @@ class LinInterp:
                 if f[0] is not None:
                     hi = min(hi, -f[0] + c0)
         return lo, hi
+
+    def lp_rng(self, lin):
+        """interval of a linear form, additionally using (exact rational LP, then rounding to integers) all facts of the path, the atoms'
+        intervals and the defining equations of limb/carry atoms together. Used at decision points only."""
+        lo, hi = self.lin_rng(lin)
+        if not self.use_lp or lo > hi:
+            return lo, hi
+        atoms = set(x for x in lin if x != "")
+        facts = self.facts or {}
+        for _ in range(4):
+            n0 = len(atoms)
+            for a in list(atoms):
+                if a in self.expand:
+                    atoms |= {x for x in self.expand[a] if x != ""}
+            for a, e in self.expand.items():
+                if a not in atoms and any(x in atoms for x in e if x != "") and all((x in atoms or x == "" or x in self.qinfo) for x in e):
+                    atoms.add(a)
+                    atoms |= {x for x in e if x != ""}
+            for f in facts.values():
+                if len(f) > 3 and f[2] & atoms:
+                    atoms |= f[2]
+            if len(atoms) == n0:
+                break
+        if not atoms or len(atoms) > 16:
+            return lo, hi
+        ck = (lin_key(lin), tuple(sorted((k, v[0], v[1]) for k, v in facts.items() if len(v) > 3 and v[2] & atoms)))
+        if ck in self._lp_cache:
+            l2, h2 = self._lp_cache[ck]
+            return max(lo, l2), min(hi, h2)
+        from .lpexact import lp_min
+        order = sorted(atoms)
+        idx = {a: i for i, a in enumerate(order)}
+        los = [self.atoms[a][0] for a in order]
+        n = len(order)
+
+        def row(d):
+            r = [0] * n
+            c0 = d.get("", 0) if isinstance(d, dict) else 0
+            for x, c in (d.items() if isinstance(d, dict) else d):
+                if x == "":
+                    continue
+                r[idx[x]] += c
+                c0 += c * los[idx[x]]
+            return r, c0    # value = r.y + c0
+        A_ub, b_ub, A_eq, b_eq = [], [], [], []
+        for a in order:
+            r = [0] * n
+            r[idx[a]] = 1
+            A_ub.append(r)
+            b_ub.append(self.atoms[a][1] - self.atoms[a][0])
+            if a in self.expand and all(x == "" or x in idx for x in self.expand[a]):
+                r, c0 = row(lin_add({a: 1}, self.expand[a], -1))
+                A_eq.append(r)
+                b_eq.append(-c0)
+        for f in facts.values():
+            if len(f) < 4 or not (f[2] <= atoms):
+                continue
+            r, c0 = row(dict(f[3]))
+            if f[0] is not None:
+                A_ub.append([-v for v in r])
+                b_ub.append(c0 - f[0])
+            if f[1] is not None:
+                A_ub.append(r)
+                b_ub.append(f[1] - c0)
+        r, c0 = row(lin)
+        import math
+        st, v = lp_min(r, A_ub, b_ub, A_eq, b_eq)
+        if st == "infeasible":
+            self._lp_cache[ck] = (1, 0)
+            return 1, 0
+        l2 = math.ceil(v + c0) if st == "opt" else lo
+        st, v = lp_min([-x for x in r], A_ub, b_ub, A_eq, b_eq)
+        h2 = math.floor(-v + c0) if st == "opt" else hi
+        self._lp_cache[ck] = (l2, h2)
+        return max(lo, l2), min(hi, h2)
 
     def mkv(self, lin, lo, hi):
         """None when the value set is empty (infeasible case)"""
@@ -345,18 +432,6 @@ class LinInterp:
             cur = lin_add(cur, self.expand[a], c)
         else:
             raise Undecided("cyclic atom definitions")
-        for _ in range(64):
-            qa = next((a for a in cur if a in self.qinfo and cur[a] % (1 << self.qinfo[a][0]) == 0), None)
-            if qa is None:
-                break
-            k, L = self.qinfo[qa]
-            m = cur.pop(qa) >> k
-            lo, hi = self._rng(L)
-            tv = self.trunc(IV(dict(L), lo, hi), k)
-            if tv.lin is None:
-                return None
-            cur = lin_add(cur, lin_add(L, tv.lin, -1), m)
-            cur = self._expand_defs(cur)
         out = {}
         for a, c in cur.items():
             c %= self.p
@@ -419,6 +494,70 @@ class LinInterp:
             return lin, min(c), max(c)
         raise Undecided(op)
 
+    def limb(self, A, w):
+        """(T, Q): the atoms T_w[A] in [0, 2^w) and Q_w[A] with A = T + 2^w * Q, for an atom A >= 0"""
+        alo, ahi = self.atoms[A]
+        q = self.atom(f"Q{w}[1*{A}]", alo >> w, ahi >> w)
+        self.qinfo.setdefault(q, (w, {A: 1}))
+        t = self.atom(f"T{w}[1*{A}]", 0, min((1 << w) - 1, ahi), expand={A: 1, q: -(1 << w)})
+        return t, q
+
+    def split(self, la, k):
+        """(L0, L1) with la = L0 + 2^k * L1 as integers and L0 in [0, 2^k): remainder and quotient of a non-negative linear form.
+        Coefficients are divided by 2^k; an atom whose coefficient c has 2^j | c and that can reach 2^(k-j) is replaced by its limbs
+        (c*A = c*T(k-j)[A] + (c >> j) * 2^k * Q(k-j)[A]); truncation atoms of at least k bits are first replaced by their definition
+        (Tj[x] = x - 2^j Qj[x]). If the remainder part can still exceed 2^k, a carry atom pair (Tk[L0], Qk[L0]) is introduced.
+        None when the remainder part may be negative."""
+        cur = dict(la)
+        for _ in range(64):
+            rep = next((x for x in cur if x.startswith("T") and x in self.expand and int(x[1:x.index("[")]) >= k), None)
+            if rep is None:
+                break
+            c = cur.pop(rep)
+            cur = lin_add(cur, self.expand[rep], c)
+        w = 1 << k
+        L0, L1 = {}, {}
+
+        def add(d, x, c):
+            v = d.get(x, 0) + c
+            if v:
+                d[x] = v
+            else:
+                d.pop(x, None)
+        for x, c in cur.items():
+            c_lo = c % w
+            c_hi = (c - c_lo) >> k
+            if c_hi:
+                add(L1, x, c_hi)
+            if not c_lo:
+                continue
+            if x != "":
+                j = (c_lo & -c_lo).bit_length() - 1
+                alo, ahi = self.atoms[x]
+                if alo >= 0 and ahi >= (1 << (k - j)):
+                    t, q = self.limb(x, k - j)
+                    add(L0, t, c_lo)
+                    add(L1, q, c_lo >> j)
+                    continue
+            add(L0, x, c_lo)
+        for x in list(L0):
+            if L0[x] >= w or L0[x] < 0:      # parts of one atom's coefficient that arrived separately add up
+                c = L0.pop(x)
+                add(L1, x, (c - c % w) >> k)
+                if c % w:
+                    L0[x] = c % w
+        lo, hi = self._rng(L0) if L0 else (0, 0)
+        if lo < 0:
+            return None
+        if hi < w:
+            return L0, L1
+        key = lin_key(L0)
+        q = self.atom(f"Q{k}[{key}]", lo >> k, hi >> k)
+        self.qinfo.setdefault(q, (k, dict(L0)))
+        t = self.atom(f"T{k}[{key}]", 0, w - 1, expand=lin_add(L0, {q: w}, -1))
+        add(L1, q, 1)
+        return {t: 1}, L1
+
     def quot(self, a, k):
         """floor(a / 2^k) for a >= 0"""
         if a.lo < 0:
@@ -428,43 +567,10 @@ class LinInterp:
         la = self.L(a)
         if la is None:
             return IV(None, a.lo >> k, a.hi >> k)
-        q = self.atom(f"Q{k}[{lin_key(la)}]", a.lo >> k, a.hi >> k)
-        self.qinfo.setdefault(q, (k, dict(la)))
-        return IV({q: 1}, *self.atoms[q])
-
-    def mod_pow2(self, la, k):
-        """a linear form congruent to `la` modulo 2^k whose interval lies in [0, 2^k) — then it IS la mod 2^k — or None.
-        Tj[x] = x (mod 2^k) for j >= k; c*A = c*T(k-j)[A] (mod 2^k) when 2^j divides c."""
-        cur = dict(la)
-        for _ in range(64):
-            rep = next((x for x in cur if x.startswith("T") and x in self.expand and int(x[1:x.index("[")]) >= k), None)
-            if rep is None:
-                break
-            c = cur.pop(rep)
-            cur = lin_add(cur, lin_add(self.expand[rep], {}, 1), c)
-            # expand[T] = x - 2^j Q: modulo 2^k (j >= k) the quotient term vanishes below
-        w = 1 << k
-        out = {}
-        for x, c in cur.items():
-            c %= w
-            if not c:
-                continue
-            if x != "":
-                j = (c & -c).bit_length() - 1
-                alo, ahi = self.atoms[x]
-                if j > 0 and alo >= 0 and ahi >= (1 << (k - j)):
-                    tv = self.trunc(IV({x: 1}, alo, ahi), k - j)
-                    if tv.lin is None:
-                        return None
-                    for y, cy in tv.lin.items():
-                        out[y] = out.get(y, 0) + c * cy
-                    continue
-            out[x] = out.get(x, 0) + c
-        out = {x: c for x, c in out.items() if c}
-        lo, hi = self._rng(out) if out else (0, 0)
-        if 0 <= lo and hi < w:
-            return out
-        return None
+        sp = self.split(la, k)
+        if sp is None:
+            return IV(None, a.lo >> k, a.hi >> k)
+        return self.mkv(sp[1], a.lo >> k, a.hi >> k) or IV(None, a.lo >> k, a.hi >> k)
 
     def trunc(self, a, k):
         """a mod 2^k for a >= 0"""
@@ -475,16 +581,10 @@ class LinInterp:
         la = self.L(a)
         if la is None:
             return IV(None, 0, (1 << k) - 1)
-        nm = f"T{k}[{lin_key(la)}]"
-        if nm not in self.atoms:
-            red = self.mod_pow2(la, k)
-            if red is not None:
-                v = self.mkv(red, 0, (1 << k) - 1)
-                if v is not None:
-                    return v
-        q = self.quot(a, k)
-        t = self.atom(nm, 0, min((1 << k) - 1, a.hi), expand=lin_add(la, lin_scale(q.lin, 1 << k), -1))
-        return IV({t: 1}, *self.atoms[t])
+        sp = self.split(la, k)
+        if sp is None:
+            return IV(None, 0, (1 << k) - 1)
+        return self.mkv(sp[0], 0, (1 << k) - 1) or IV(None, 0, (1 << k) - 1)
 
     def binop(self, op, a, b, ty, loc):
         if not isinstance(a, IV) or not isinstance(b, IV):
@@ -492,6 +592,10 @@ class LinInterp:
         if op in ("Lt", "Le", "Gt", "Ge", "Eq", "Ne"):
             lin, lo, hi = self.exact("Sub", a, b)
             d = self.mkv(lin, lo, hi) or IV(None, lo, hi)
+            if d.lin is not None and d.lo < 0 <= d.hi or (d.lin is not None and d.lo <= 0 < d.hi):
+                l2, h2 = self.lp_rng(d.lin)
+                if l2 <= h2:
+                    d = IV(d.lin, max(d.lo, l2), min(d.hi, h2))
             dec = {"Lt": (d.hi < 0, d.lo >= 0), "Le": (d.hi <= 0, d.lo > 0), "Gt": (d.lo > 0, d.hi <= 0), "Ge": (d.lo >= 0, d.hi < 0),
                    "Eq": (d.lo == d.hi == 0, d.lo > 0 or d.hi < 0), "Ne": (d.lo > 0 or d.hi < 0, d.lo == d.hi == 0)}[op]
             if dec[0]:
@@ -588,6 +692,11 @@ class LinInterp:
         e = self.mkv(lin, lo, hi)
         if e is None:
             return []
+        if e.lin is not None and ((kind == "add" and e.lo < w <= e.hi) or (kind != "add" and e.lo < 0 <= e.hi)):
+            l2, h2 = self.lp_rng(e.lin)     # both cases look feasible: ask the polyhedral side
+            if l2 > h2:
+                return []
+            e = IV(e.lin, max(e.lo, l2), min(e.hi, h2))
         out = []
         n = {x: c for x, c in e.lin.items() if x != ""} if e.lin is not None else None
         c0 = e.lin.get("", 0) if e.lin is not None else 0
@@ -832,10 +941,10 @@ class LinInterp:
         o = f.get(fk, (None, None))
         nl = bnd[0] if o[0] is None else (o[0] if bnd[0] is None else max(o[0], bnd[0]))
         nh = bnd[1] if o[1] is None else (o[1] if bnd[1] is None else min(o[1], bnd[1]))
-        f[fk] = (nl, nh, frozenset(x for x in n if x != ""))
+        f[fk] = (nl, nh, frozenset(x for x in n if x != ""), tuple(sorted(n.items())))
         saved, self.facts = self.facts, f
         try:
-            lo_, hi_ = self.lin_rng(n)
+            lo_, hi_ = self.lp_rng(n)
         finally:
             self.facts = saved
         return None if lo_ > hi_ else f
